@@ -172,7 +172,8 @@ func (o *Outcome) ResumeInterrupted(stream uuid.UUID) bool {
 
 // StorageOp is one call on the sent storage as seen by the recording wrapper.
 type StorageOp struct {
-	T      int64
+	Call   int64
+	T      int64 // return time
 	Op     string
 	Stream uuid.UUID
 	Seq    uint32
@@ -196,20 +197,23 @@ func (s *recStorage) add(o StorageOp) {
 }
 
 func (s *recStorage) Store(ctx context.Context, id uuid.UUID, seq uint32, dps iscp.DataPointGroups) error {
+	c := s.clk.Tick()
 	err := s.inner.Store(ctx, id, seq, dps)
-	s.add(StorageOp{Op: "store", Stream: id, Seq: seq, Err: es(err)})
+	s.add(StorageOp{Call: c, Op: "store", Stream: id, Seq: seq, Err: es(err)})
 	return err
 }
 
 func (s *recStorage) Remove(ctx context.Context, id uuid.UUID, seq uint32) (iscp.DataPointGroups, error) {
+	c := s.clk.Tick()
 	r, err := s.inner.Remove(ctx, id, seq)
-	s.add(StorageOp{Op: "remove", Stream: id, Seq: seq, Err: es(err)})
+	s.add(StorageOp{Call: c, Op: "remove", Stream: id, Seq: seq, Err: es(err)})
 	return r, err
 }
 
 func (s *recStorage) List(ctx context.Context, id uuid.UUID) (map[uint32]iscp.DataPointGroups, error) {
+	c := s.clk.Tick()
 	r, err := s.inner.List(ctx, id)
-	o := StorageOp{Op: "list", Stream: id, N: len(r), Err: es(err)}
+	o := StorageOp{Call: c, Op: "list", Stream: id, N: len(r), Err: es(err)}
 	for k := range r {
 		o.Seqs = append(o.Seqs, k)
 	}
@@ -218,8 +222,9 @@ func (s *recStorage) List(ctx context.Context, id uuid.UUID) (map[uint32]iscp.Da
 }
 
 func (s *recStorage) Clear(ctx context.Context, id uuid.UUID) error {
+	c := s.clk.Tick()
 	err := s.inner.Clear(ctx, id)
-	s.add(StorageOp{Op: "clear", Stream: id, Err: es(err)})
+	s.add(StorageOp{Call: c, Op: "clear", Stream: id, Err: es(err)})
 	return err
 }
 
